@@ -26,8 +26,9 @@ def ncalls(local, remote):
     return 3 + (3 * len(local) + 1) + (3 * len(remote) + 1)
 
 
-def scen(label, kind, maxlen, pres, modes=ALL_MODES, remote=REMOTE, sim=None):
-    return dict(label=label, kind=kind, maxlen=maxlen, pres=pres, modes=modes, local=LOCAL, remote=remote, sim=sim)
+def scen(label, kind, maxlen, pres, modes=ALL_MODES, remote=REMOTE, sim=None, medias=("av",)):
+    return dict(label=label, kind=kind, maxlen=maxlen, pres=pres, modes=modes, local=LOCAL, remote=remote, sim=sim,
+                medias=medias)
 
 
 # "connected": a really connected WebRtc pair (ICE + DTLS up); the class "otherfp" (well-formed description carrying
@@ -41,6 +42,7 @@ TIERS = {
     "thorough": [
         scen("all-sequences/len3", "bounded", 3, NEGOTIATED),
         scen("connected/len3", "bounded", 3, ("connected",), modes=("WebRtc",), remote=CONNECTED_REMOTE),
+        scen("data-channel/len3", "bounded", 3, NEGOTIATED, modes=("WebRtc",), medias=("dc", "avdc")),
         scen("all-sequences/len4/fresh", "bounded", 4, ("fresh",)),
         scen("random/len6", "sim", 6, NEGOTIATED, sim=60000),
     ],
@@ -53,6 +55,7 @@ def write_cfg(path, sc, maxlen, view, emit, inv="", deviations="{}"):
 CONSTANTS
   Pres = {S(sc['pres'])}
   Modes = {S(sc['modes'])}
+  Medias = {S(sc['medias'])}
   LocalClasses = {S(sc['local'])}
   RemoteClasses = {S(sc['remote'])}
   MaxLen = {maxlen}
@@ -122,7 +125,8 @@ def replay_programs(ck, table, programs, label, jobs):
         if ty == "tool_error":
             raise vlib.ToolError(f"jsep harness: {json.dumps(r)[:600]}")
         if ty == "divergence":
-            r["case"] = {"mode": r["mode"], "pre": r["pre"], "calls": r["program"], "scenario": label}
+            r["case"] = {"mode": r["mode"], "media": r.get("media", "av"), "pre": r["pre"], "calls": r["program"],
+                         "scenario": label}
             ck.divergence(sig_of(r), r)
         elif ty == "drift":
             ck.drift.append({k: r[k] for k in ("mode", "pre", "call", "t", "d", "sig", "field", "expected", "observed", "err")})
@@ -148,8 +152,9 @@ def run(tier):
             exhaustive = exhaustive and pres_["finished"] and tres["finished"]
         try:
             summ = replay_programs(ck, table, programs, sc["label"], jobs)
-            if summ["programs"] != nprog * len(sc["modes"]):
-                raise vlib.ToolError(f"{sc['label']}: {summ['programs']} program runs for {nprog} programs x {len(sc['modes'])} modes")
+            if summ["programs"] != nprog * len(sc["modes"]) * len(sc["medias"]):
+                raise vlib.ToolError(f"{sc['label']}: {summ['programs']} program runs for {nprog} programs x "
+                                     f"{len(sc['modes'])} modes x {len(sc['medias'])} media sets")
         except vlib.ToolError as e:
             # a scenario that could not be run is never a verdict, but it must not hide what the others found
             tool_errors.append(f"{sc['label']}: {e}")
@@ -158,7 +163,8 @@ def run(tier):
         total_prog += summ["programs"]
         total_calls += summ["calls"]
         refused += summ["programs_with_refused_call"]
-        ck.notes.append({"label": sc["label"], "pres": sc["pres"], "modes": sc["modes"], "remote_classes": sc["remote"],
+        ck.notes.append({"label": sc["label"], "pres": sc["pres"], "modes": sc["modes"], "medias": sc["medias"],
+                         "remote_classes": sc["remote"],
                          **{k: summ[k] for k in ("programs", "calls", "ok", "err", "panic", "programs_with_refused_call",
                                                  "table_edges", "table_edges_hit_per_mode", "rows_suppressed")}})
         with open(programs) as f:
@@ -217,7 +223,8 @@ def replay(path):
     case = rec["record"]["case"]
     table, _ = gen_table(ck, _scenario_of(case), "replay")
     pp = os.path.join(ck.dir, "replay_one_program.ndjson")
-    vlib.write_ndjson(pp, [{"pre": case["pre"], "modes": [case["mode"]], "calls": case["calls"]}])
+    vlib.write_ndjson(pp, [{"pre": case["pre"], "modes": [case["mode"]], "medias": [case.get("media", "av")],
+                            "calls": case["calls"]}])
     summ = replay_programs(ck, table, pp, "replay_one", 2)
     ck.cov.update(traces_validated_against_impl=summ["programs"], evaluations=summ["calls"], samples=[case])
     ck.finish()
